@@ -833,6 +833,12 @@ pub fn run(tier: &str) -> i32 {
     let mut cases = adversarial(thorough);
     cases.extend(cycles());
     cases.extend(mutants(thorough));
+    // debugging aid: write the case list (one JSON document per line, the worker's input format) and stop
+    if let Ok(p) = std::env::var("GMC_C08_DUMP") {
+        let text: String = cases.iter().filter(|c| !c["class"].as_str().unwrap_or("").starts_with("reference-cycle")).map(|c| format!("{}\n", c)).collect();
+        std::fs::write(&p, text).expect("dump");
+        return 0;
+    }
     let wall = Some(Instant::now() + Duration::from_secs(if thorough { 3000 } else { 45 }));
     let (outs, capped) = run_isolated(&cases, 20_000, wall);
     rep.states = outs.len() as u64;
